@@ -28,6 +28,7 @@ PT = "TLX.Quic.PType"
 VER = "TLX.Session.Ver"
 QDEC = "TLX.Quic.Session.Dec"
 MLV = "TLX.MainLoop.Version"
+SEG = "TLX.Reassembly.Seg"
 
 HTYPE = {"QuicHeaderType.LONG": (f"{HT}.long", HT), "QuicHeaderType.SHORT": (f"{HT}.short", HT)}
 PTYPE = {f"QuicPacketType.{a}": (f"{PT}.{b}", PT) for a, b in
@@ -47,6 +48,7 @@ GROUPS = {
                   decls=["/-- the two handlers `run()` hands a frame to -/\ninductive RunAct | tls | quic\n  deriving DecidableEq, Repr\n"]),
     "Ports": dict(imports=["TLX.PyRt"], decls=[]),
     "TlsSess": dict(imports=["TLX.PyRt", "TLX.Session"], decls=[]),
+    "Reasm": dict(imports=["TLX.PyRt", "TLX.Reassembly"], decls=[]),
 }
 
 SPECS = [
@@ -129,6 +131,44 @@ SPECS = [
     dict(name="server_hello_latch", group="TlsSess", file="tlexport/session.py", func="Session.handle_tls_server_hello",
          select={"start": "if self.client_hello_seen:"}, params=[],
          places=[("self.client_hello_seen", "client_hello_seen", "Bool", "r"), ("self.can_decrypt", "can_decrypt", "Bool", "rw")]),
+    # TCP reassembly (session.py): the duplicate test of handle_packet and, of extract_*_buf, the test that the stream
+    # continues at `base`, the contiguity test between neighbours and the next expected sequence number (mod 2^32);
+    # the rest of extract_*_buf (min/sort with key functions, `while True`, bytearray) is outside the subset
+    dict(name="session_handle_packet", group="Reasm", file="tlexport/session.py", func="Session.handle_packet",
+         params=[("packet", SEG)], ret="None",
+         places=[("packet.seq", "seq", "Nat", "r"), ("packet.ip_src", "ip_src", "Bytes", "r"), ("packet.sport", "sport", "Nat", "r"),
+                 ("self.server_ip", "server_ip", "Bytes", "r"), ("self.server_port", "server_port", "Nat", "r"),
+                 ("self.seen_packets_server", "seen_packets_server", "List Nat", "rw"),
+                 ("self.seen_packets_client", "seen_packets_client", "List Nat", "rw"),
+                 ("self.packet_buffer", "packet_buffer", f"List {SEG}", "rw")]),
+    dict(name="extract_server_head_test", group="Reasm", file="tlexport/session.py", func="Session.extract_server_buf",
+         select={"if_test": "if self.server_packet_buffer[0].seq != base"}, params=[("base", "Nat")],
+         places=[("self.server_packet_buffer[0].seq", "seq0", "Nat", "r")]),
+    dict(name="extract_server_gap_test", group="Reasm", file="tlexport/session.py", func="Session.extract_server_buf",
+         select={"if_test": "if (self.server_packet_buffer[i].seq + len("}, params=[],
+         places=[("self.server_packet_buffer[i].seq", "seq_i", "Nat", "r"), ("self.server_packet_buffer[i].tls_data", "data_i", "Bytes", "r"),
+                 ("self.server_packet_buffer[i + 1].seq", "seq_next", "Nat", "r")]),
+    dict(name="extract_server_sort_key", group="Reasm", file="tlexport/session.py", func="Session.extract_server_buf",
+         select={"lambda_in": "self.server_packet_buffer.sort("}, params=[("base", "Nat")], places=[("x.seq", "seq", "Nat", "r")]),
+    dict(name="extract_server_presync_key", group="Reasm", file="tlexport/session.py", func="Session.extract_server_buf",
+         select={"lambda_in": "base = min(self.server_packet_buffer"}, params=[("first", "Nat")], places=[("x.seq", "seq", "Nat", "r")]),
+    dict(name="extract_server_next_seq", group="Reasm", file="tlexport/session.py", func="Session.extract_server_buf",
+         select={"start": "self.server_next_seq = (base + total_packet_len)"}, params=[("base", "Nat"), ("total_packet_len", "Nat")],
+         places=[("self.server_next_seq", "next_seq", "Option Nat", "rw")]),
+    dict(name="extract_client_head_test", group="Reasm", file="tlexport/session.py", func="Session.extract_client_buf",
+         select={"if_test": "if self.client_packet_buffer[0].seq != base"}, params=[("base", "Nat")],
+         places=[("self.client_packet_buffer[0].seq", "seq0", "Nat", "r")]),
+    dict(name="extract_client_gap_test", group="Reasm", file="tlexport/session.py", func="Session.extract_client_buf",
+         select={"if_test": "if (self.client_packet_buffer[i].seq + len("}, params=[],
+         places=[("self.client_packet_buffer[i].seq", "seq_i", "Nat", "r"), ("self.client_packet_buffer[i].tls_data", "data_i", "Bytes", "r"),
+                 ("self.client_packet_buffer[i + 1].seq", "seq_next", "Nat", "r")]),
+    dict(name="extract_client_sort_key", group="Reasm", file="tlexport/session.py", func="Session.extract_client_buf",
+         select={"lambda_in": "self.client_packet_buffer.sort("}, params=[("base", "Nat")], places=[("x.seq", "seq", "Nat", "r")]),
+    dict(name="extract_client_presync_key", group="Reasm", file="tlexport/session.py", func="Session.extract_client_buf",
+         select={"lambda_in": "base = min(self.client_packet_buffer"}, params=[("first", "Nat")], places=[("x.seq", "seq", "Nat", "r")]),
+    dict(name="extract_client_next_seq", group="Reasm", file="tlexport/session.py", func="Session.extract_client_buf",
+         select={"start": "self.client_next_seq = (base + total_packet_len)"}, params=[("base", "Nat"), ("total_packet_len", "Nat")],
+         places=[("self.client_next_seq", "next_seq", "Option Nat", "rw")]),
     # main.py handle_quic_packet: the head (what is read from a long header; `return` on a long header in < 6 bytes) …
     dict(name="quic_header", group="QuicDissect", file="tlexport/main.py", func="handle_quic_packet",
          select={"start": "quic_version = QuicVersion.UNKNOWN", "end": "if header_type == QuicHeaderType.LONG:\n    if len(packet_payload)"},
@@ -203,6 +243,7 @@ CHECK_GROUPS = {
     "C02": ["QuicDissect", "QuicSess", "Pn", "Varint"],
     "C03": ["TlsSess", "QuicDissect"],
     "C04": ["Demux", "QuicSess", "QuicDissect"],
+    "C05": ["Reasm"],
     "C07": ["Ports"],
     "C10": ["Ports"],
     "C13": ["TlsSess"],
@@ -443,6 +484,16 @@ def _cases(rng, n):
                     f"{{ ipv6 := {_bool(me.ipv6)}, server_ip := {_b(me.server_ip)}, server_port := {me.server_port}, "
                     f"server_mac_addr := {_b(me.server_mac_addr)}, client_ip := {_b(me.client_ip)}, client_port := {me.client_port}, "
                     f"client_mac_addr := {_b(me.client_mac_addr)} }}"))
+        # Session.handle_packet (a `Seg` stands for the packet object: only its identity and `seq` matter here)
+        seen_s, seen_c = [rng.randrange(4) for _ in range(rng.randint(0, 3))], [rng.randrange(4) for _ in range(rng.randint(0, 3))]
+        pk2 = NS(seq=rng.randrange(4), ip_src=rng.choice(ips), sport=rng.choice([443, 5000]))
+        me = NS(server_ip=rng.choice(ips), server_port=rng.choice([443, 5000]), seen_packets_server=list(seen_s),
+                seen_packets_client=list(seen_c), packet_buffer=[])
+        call(ses.Session.handle_packet, me, pk2)
+        seg = f"(⟨0, {pk2.seq}, []⟩ : TLX.Reassembly.Seg)"
+        out.append(("session_handle_packet", f"{seg} {pk2.seq} {_b(pk2.ip_src)} {pk2.sport} {_b(me.server_ip)} {me.server_port} {seen_s} {seen_c} []",
+                    f"{{ seen_packets_server := {me.seen_packets_server}, seen_packets_client := {me.seen_packets_client}, "
+                    f"packet_buffer := [{seg if me.packet_buffer else ''}] }}"))
         # handle_alert / handle_tls_client_hello
         ver = rng.choice([None] + list(vers))
         me = NS(tls_version=ver, can_decrypt=rng.random() < 0.5, client_hello_seen=rng.random() < 0.5)
